@@ -35,6 +35,28 @@ func Run(conf core.Config) *core.Result {
 	}
 	pkg := pkgs[0]
 	info := pkg.TypesInfo
+	// unexported helper methods that run the overlap guards of their receiver
+	// (rawVectorsOf(x, y) calls m.checkOverlap for both vectors)
+	guardHelpers := map[types.Object]bool{}
+	for _, f := range pkg.Syntax {
+		for _, d := range f.Decls {
+			fd, ok := d.(*ast.FuncDecl)
+			if !ok || fd.Body == nil || fd.Recv == nil || len(fd.Recv.List) != 1 || len(fd.Recv.List[0].Names) != 1 || ast.IsExported(fd.Name.Name) || strings.HasPrefix(fd.Name.Name, "checkOverlap") {
+				continue
+			}
+			rv := info.Defs[fd.Recv.List[0].Names[0]]
+			ast.Inspect(fd.Body, func(n ast.Node) bool {
+				if c, ok := n.(*ast.CallExpr); ok {
+					if sel, ok := c.Fun.(*ast.SelectorExpr); ok && strings.HasPrefix(sel.Sel.Name, "checkOverlap") {
+						if id, ok := ast.Unparen(sel.X).(*ast.Ident); ok && rv != nil && core.ObjOf(info, id) == rv {
+							guardHelpers[info.Defs[fd.Name]] = true
+						}
+					}
+				}
+				return true
+			})
+		}
+	}
 	for _, f := range pkg.Syntax {
 		for _, d := range f.Decls {
 			fd, ok := d.(*ast.FuncDecl)
@@ -131,7 +153,7 @@ func Run(conf core.Config) *core.Result {
 					if sel, ok := c.Fun.(*ast.SelectorExpr); ok && isRecv(sel.X) {
 						nm := sel.Sel.Name
 						switch {
-						case strings.HasPrefix(nm, "checkOverlap"):
+						case strings.HasPrefix(nm, "checkOverlap") || guardHelpers[info.Uses[sel.Sel]]:
 							guards = append(guards, c)
 						case strings.HasPrefix(nm, "Copy") || nm == "Zero" || nm == "CloneFrom" || nm == "reuseAsZeroed":
 							content = append(content, c)
